@@ -26,20 +26,24 @@ inductive Kind | directory | sqlite
     first or last character) -/
 def specStem (id : Str) : Str := CogentModel.DataStore.pathStem id
 
+/-- SQLite store: an identifier may be spelled with its table name in front (`results/<id>`) -/
+def sqlNorm (table id : Str) : Str :=
+  if CogentModel.DataStore.startsWith id table then CogentModel.DataStore.pathName id else id
+
 def cName (k : Kind) (sfx id : Str) : Str :=
   match k with
   | .directory => specStem id ++ '.' :: sfx
-  | .sqlite => id
+  | .sqlite => sqlNorm CogentModel.DataStore.sResults id
 
 def ncName (k : Kind) (id : Str) : Str :=
   match k with
   | .directory => specStem id ++ '.' :: CogentModel.DataStore.sJson
-  | .sqlite => id
+  | .sqlite => sqlNorm CogentModel.DataStore.sResults id
 
 def logName (k : Kind) (id : Str) : Str :=
   match k with
   | .directory => specStem id ++ '.' :: CogentModel.DataStore.sLog
-  | .sqlite => id
+  | .sqlite => sqlNorm CogentModel.DataStore.sLogs id
 
 structure Dict (D : Type) where
   mode : Mode
@@ -115,7 +119,9 @@ def hygId (sfx i : Str) : Bool :=
   endsWith (ncN i) ('.' :: sJson) &&
   !startsWith (cN sfx i) ncPrefix &&
   !startsWith (ncN i) ncPrefix &&
-  sfx != sLog
+  sfx != sLog &&
+  !(cN sfx i).contains '/' &&
+  !(ncN i).contains '/'
 
 def hygPair (cfg : Cfg) (sfx i j : Str) : Bool :=
   (!dropMatch cfg (ncN i) (ncN j) || decide (ncN j = ncN i)) &&
